@@ -102,8 +102,12 @@ def check_accept_loop(f, rep, rule, b, key_prefix):
         for i, ev in enumerate(p.events):
             if ev.kind == "call" and ev.extra != "inlined" and not pathq.is_poll(ev):
                 # the callback is a captured Fn: calling it shows up as Fn::call on a captured field
+                # (its type names the connection type it is handed - in the field's `impl Fn(..)` type or, for a named generic `F`, in
+                # the argument tuple of the Fn trait it is called through)
                 if short(ev.name) in ("call", "call_mut", "call_once") and ev.args and any(
-                        isinstance(x, tuple) and x and x[0] == "field" and x[1] == ("arg", 1) and type_holds(f, str(x[3]), names.of(f, "FramedIo")) for x in walk_expr(ev.args[0])):
+                        isinstance(x, tuple) and x and x[0] == "field" and x[1] == ("arg", 1) and
+                        (type_holds(f, str(x[3]), names.of(f, "FramedIo")) or any(type_holds(f, str(a), names.of(f, "FramedIo")) for a in ((ev.fn or {}).get("args") or [])))
+                        for x in walk_expr(ev.args[0])):
                     fut = ev.result
                     later = [e2 for e2 in p.events[i + 1:] if e2.kind == "call" and short(e2.name) == "spawn" and e2.args and any(y == fut for y in walk_expr(e2.args[0]))]
                     polled = [e2 for e2 in p.events[i + 1:] if e2.kind == "call" and short(e2.name) in ("into_future", "poll") and e2.args and any(y == fut for y in walk_expr(e2.args[0]))]
